@@ -820,22 +820,61 @@ def _compile_config(
         defaultdict(lambda: defaultdict(list))
     )
 
+    # 🧭 A transition relates two State OBJECTS. Where the same name occurs
+    #    at several depths, matching by bare name merged the transition into
+    #    every state of that name and let the target resolve to whichever
+    #    namesake was nearest. Objects that are part of this machine are
+    #    therefore located by their path; anything else keeps the bare name.
+    path_of: Dict[int, str] = {}
+    name_count: Dict[str, int] = defaultdict(int)
+
+    def _index_states(state_list: List[State], prefix: str = "") -> None:
+        for s in state_list:
+            key = f"{prefix}.{s.name}" if prefix else s.name
+            path_of[id(s)] = key
+            name_count[s.name] += 1
+            if s.states:
+                _index_states(s.states, prefix=key)
+
+    _index_states(states)
+
+    trans_by_path_event: Dict[str, Dict[str, List[Transition]]] = (
+        defaultdict(lambda: defaultdict(list))
+    )
     for t in flat_transitions:
-        trans_by_source_event[t.source.name][t.event].append(t)
+        source_path = path_of.get(id(t.source))
+        if source_path is not None:
+            trans_by_path_event[source_path][t.event].append(t)
+        else:
+            trans_by_source_event[t.source.name][t.event].append(t)
+
+    def _target_of(t: Transition) -> str:
+        target_path = path_of.get(id(t.target))
+        if target_path is not None and name_count[t.target.name] > 1:
+            return f"#{machine_id}.{target_path}"
+        return t.target.name
 
     def _merge_transitions_into(
         state_name: str,
         state_config: Dict[str, Any],
+        state_path: str,
     ) -> None:
-        if state_name in trans_by_source_event:
+        # 🔑 By path for this machine's own objects; by bare name for
+        #    foreign State objects.
+        for table, key in (
+            (trans_by_path_event, state_path),
+            (trans_by_source_event, state_name),
+        ):
+            if key not in table:
+                continue
             if "on" not in state_config:
                 state_config["on"] = {}
-            for event, t_list in trans_by_source_event[state_name].items():
+            for event, t_list in table[key].items():
                 compiled = []
                 for t in t_list:
                     entry: Dict[str, Any] = {}
                     if not t.internal and t.target is not None:
-                        entry["target"] = t.target.name
+                        entry["target"] = _target_of(t)
                     if t.guard:
                         entry["guard"] = t.guard
                     if t.actions:
@@ -850,10 +889,12 @@ def _compile_config(
         # 📝 Recurse into child states
         if "states" in state_config:
             for child_name, child_config in state_config["states"].items():
-                _merge_transitions_into(child_name, child_config)
+                _merge_transitions_into(
+                    child_name, child_config, f"{state_path}.{child_name}"
+                )
 
     for sname, sconfig in state_configs.items():
-        _merge_transitions_into(sname, sconfig)
+        _merge_transitions_into(sname, sconfig, sname)
 
     # ⚙️ Assemble top-level config
     result: Dict[str, Any] = {
